@@ -38,7 +38,17 @@ def run_driver(which, cmds, timeout=1800):
     exe = os.path.join(VERIF, "build", "ml_" + which, "driver")
     if not os.path.exists(exe):
         return None, "driver %s not built" % which
-    p = subprocess.run([exe], input="\n".join(cmds) + "\n", capture_output=True, text=True, timeout=timeout)
+    def big_stack():
+        # extracted list functions are not tail recursive: long inputs need a deep stack
+        import resource
+        for lim in (resource.RLIM_INFINITY, 4 << 30, 1 << 30):
+            try:
+                resource.setrlimit(resource.RLIMIT_STACK, (lim, resource.getrlimit(resource.RLIMIT_STACK)[1]))
+                return
+            except (ValueError, OSError):
+                continue
+    p = subprocess.run([exe], input="\n".join(cmds) + "\n", capture_output=True, text=True, timeout=timeout,
+                       preexec_fn=big_stack)
     if p.returncode != 0:
         return None, "driver %s failed: %s" % (which, (p.stderr.strip().splitlines() or ["?"])[-1])
     return p.stdout.splitlines(), None
